@@ -77,6 +77,8 @@ theorem roll_angle_5_0_eq (m : Msg) (L : Long m) : T.roll_angle_5_0 m = rollAngl
   rw [filt3, filt3]
   simp [u32ToI32_of_lt h2]
 
+theorem track_angle_eq (s v : Nat) : T.track_angle s v = (if s = 0 then (v * 90) >>> 9 else (v * 90) >>> 9 + 180) := rfl
+theorem magnetic_heading_eq (s v : Nat) : T.magnetic_heading s v = (if s = 0 then (v * 90) >>> 9 else (v * 90) >>> 9 + 180) := rfl
 theorem track_angle_5_0_eq (m : Msg) : T.track_angle_5_0 m = trackAngle50 m := rfl
 
 theorem track_angle_rate_5_0_eq (m : Msg) (L : Long m) : T.track_angle_rate_5_0 m = trackAngleRate50 m := by
